@@ -46,6 +46,7 @@ import (
 const (
 	c11BaseURL  = "https://issuer.example"
 	c11NIssuers = 3
+	c11ExtBase  = "https://external.example/status/"
 )
 
 // c11Resolver is a static DID resolver shared by both nodes (the DID documents are "public").
@@ -193,8 +194,11 @@ func c11Fixture(t *testing.T) *c11Fix {
 		ld := jsonld.NewTestJSONLDManager(t)
 		dir := t.TempDir()
 
-		for i := 0; i < c11NIssuers; i++ {
+		for i := 0; i <= c11NIssuers; i++ { // index c11NIssuers = the EXTERNAL issuer: known to the resolver, not hosted on the issuer node
 			d := did.MustParseDID(fmt.Sprintf("did:web:issuer.example:iam:i%d", i))
+			if i == c11NIssuers {
+				d = did.MustParseDID("did:web:external.example")
+			}
 			kid := d.String() + "#0"
 			_, pub, err := f.keys.New(f.ctx, crypto.StringNamingFunc(kid))
 			if err != nil {
